@@ -113,7 +113,11 @@ class Ctx:
         if name in self.inputs:
             v = self.inputs[name]
         elif self._given:
-            raise KeyError(f"replay input {name} missing")
+            # a counter-model need not mention inputs the refuted clause does not depend on: any admissible value will do
+            if sort == "I":
+                v = lo if lo is not None else (hi if hi is not None else 1)
+            else:
+                v = (lo + hi) / 2 if lo is not None and hi is not None else (lo + 1.0 if lo is not None else (hi - 1.0 if hi is not None else 0.3))
         else:
             if sort == "I":
                 v = self.rng.randint(lo if lo is not None else -3, hi if hi is not None else 8)
